@@ -783,7 +783,6 @@ def E1x(b):
     Bounded stand-in (labelled B) for the same reason as E1.
     """
     from kopf._cogs.structs import bodies, patches
-    F4 = 'F-C04-4'
     configs = all_configs()
     by_key = {(c.pk, c.dk, c.prefix, c.v1): c for c in configs}
 
@@ -808,16 +807,9 @@ def E1x(b):
                     b.case(key=None, nontrivial=body2 != body)
                     e1, error = essence_or_error(cfg, body2, extra)
                     ok = error is None and same(e0, e1)
-                    excuse = None
-                    if not ok and error is None and touch_fields:
-                        r0, r1 = e0, e1
-                        for tf in touch_fields:
-                            r0, r1 = _without_field(r0, tf), _without_field(r1, tf)
-                        if same(r0, r1):       # the excused class: nothing but the touch field(s) differs
-                            excuse = F4
+                    # F-C04-4 (the touch field survived clear(); fixed in repo 61b56d4) was found by this clause
                     b.check('own_storage_writes_invisible', ok,
-                            lambda: dict(ctx, write=label, patch=patch, body=body, essence_before=e0, essence_after=e1, raised=error),
-                            excuse=excuse)
+                            lambda: dict(ctx, write=label, patch=patch, body=body, essence_before=e0, essence_after=e1, raised=error))
                 # the stored essence is a fixpoint of the detector
                 patch = patches.Patch()
                 cfg.diffbase.store(body=bodies.Body(body), patch=patch, essence=e0)
